@@ -1,6 +1,191 @@
 import DaskModel.DriverLib
+import DaskModel.Model.Sched
 open Dask
+open Dask.Sched
 
-def table : List (String × Handler) := []
+/-! Driver of group `sched`. Values are `Int`; the task function of the harness is `mix`. -/
+
+namespace SchedDrv
+
+def modulus : Int := 1000000007
+
+/-- the task function shared with the harness (`_sched_util.mix`) -/
+def mix (k : Key) (vals : List Int) : Int :=
+  (vals.foldl (fun acc v => (acc * 31 + v) % modulus) ((k : Int) * 1000003 + 7)) % modulus
+
+def sortNat (l : List Nat) : List Nat := l.mergeSort (fun a b => a ≤ b)
+def sortMap {β : Type} (m : Map β) : Map β := m.mergeSort (fun a b => a.1 ≤ b.1)
+
+def encSetMap (m : Map (List Key)) : SExp :=
+  .list ((sortMap m).map (fun p => .list [SExp.ofNat p.1, SExp.ofNats (sortNat p.2)]))
+
+def encState (s : State Int) : SExp :=
+  .list [encSetMap s.dependencies, encSetMap s.dependents, encSetMap s.waiting, encSetMap s.waitingData,
+         .list ((sortMap s.cache).map (fun p => .list [SExp.ofNat p.1, .int p.2])),
+         SExp.ofNats s.ready.reverse, SExp.ofNats (sortNat s.running), SExp.ofNats (sortNat s.finished),
+         SExp.ofNats (sortNat s.released)]
+
+def decSetMap (e : SExp) : Option (Map (List Key)) := do
+  (← e.toList?).mapM (fun p => match p with
+    | .list [k, v] => do pure ((← k.toNat?), (← v.toNats?))
+    | _ => none)
+
+def decIntMap (e : SExp) : Option (Map Int) := do
+  (← e.toList?).mapM (fun p => match p with
+    | .list [k, v] => do pure ((← k.toNat?), (← v.toInt?))
+    | _ => none)
+
+def decState (e : SExp) : Option (State Int) :=
+  match e with
+  | .list [a, b, c, d, ca, r, ru, f, re] => do
+    pure { dependencies := ← decSetMap a, dependents := ← decSetMap b, waiting := ← decSetMap c,
+           waitingData := ← decSetMap d, cache := ← decIntMap ca, ready := (← r.toNats?).reverse,
+           running := ← ru.toNats?, finished := ← f.toNats?, released := ← re.toNats? }
+  | _ => none
+
+def encKE : KE → String
+  | .waiting => "waiting" | .waitingRemove => "waitingRemove" | .waitingDataRemove => "waitingDataRemove"
+  | .cacheDel => "cacheDel" | .cacheRead => "cacheRead" | .runningRemove => "runningRemove"
+  | .dependencies => "dependencies" | .dependents => "dependents" | .initWaitingRemove => "initWaitingRemove"
+  | .result => "result"
+
+def encErr : Err → SExp
+  | .missingDep k => .list [.sym "missingDep", SExp.ofNat k]
+  | .noAccessibleJobs => .list [.sym "noAccessibleJobs"]
+  | .zeroDivision => .list [.sym "zeroDivision"]
+  | .keyError w => .list [.sym "keyError", .sym (encKE w)]
+  | .assertion => .list [.sym "assertion"]
+  | .indexError => .list [.sym "indexError"]
+  | .hang => .list [.sym "hang"]
+  | .badChoice => .list [.sym "badChoice"]
+  | .fuel => .list [.sym "fuel"]
+
+def encEv : Ev → SExp
+  | .start => .list [.sym "start"]
+  | .startState => .list [.sym "start_state"]
+  | .pretask k => .list [.sym "pretask", SExp.ofNat k]
+  | .submit ks => .list [.sym "submit", SExp.ofNats ks]
+  | .posttask k => .list [.sym "posttask", SExp.ofNat k]
+  | .finish f => .list [.sym "finish", SExp.ofBool f]
+
+/-- nodes: `(k d v)` data with value v, `(k t d1 d2 …)` task, `(k a d)` alias -/
+structure GraphIn where
+  g : Graph
+  aliases : List Key
+  vals : Map Int
+
+def decNodes (e : SExp) : Option GraphIn := do
+  let items ← e.toList?
+  items.foldlM (fun (acc : GraphIn) it =>
+    match it with
+    | .list (k :: .sym "d" :: [v]) => do
+      let k ← k.toNat?; let v ← v.toInt?
+      pure { acc with g := acc.g ++ [(k, Node.data)], vals := acc.vals ++ [(k, v)] }
+    | .list (k :: .sym "t" :: ds) => do
+      let k ← k.toNat?; let ds ← ds.mapM SExp.toNat?
+      pure { acc with g := acc.g ++ [(k, Node.task ds)] }
+    | .list (k :: .sym "a" :: [d]) => do
+      let k ← k.toNat?; let d ← d.toNat?
+      pure { acc with g := acc.g ++ [(k, Node.task [d])], aliases := k :: acc.aliases }
+    | _ => none) { g := [], aliases := [], vals := [] }
+
+def mkParams (gi : GraphIn) (fails : List Key) : Params Int :=
+  { dataVal := fun k => (gi.vals.get? k).getD 0,
+    apply := fun k vals => if k ∈ gi.aliases then vals.headD 0 else mix k vals,
+    truthy := fun v => v != 0,
+    fails := fun k => k ∈ fails }
+
+def decPrio (e : SExp) : Option (Key → Nat) := do
+  let items ← e.toList?
+  let m : Map Nat ← items.mapM (fun p => match p with
+    | .list [k, v] => do pure ((← k.toNat?), (← v.toNat?))
+    | _ => none)
+  pure (fun k => (m.get? k).getD 0)
+
+def encOutcome : Except Err Outcome → SExp
+  | .ok .done => .list [.sym "done"]
+  | .ok (.failed k) => .list [.sym "failed", SExp.ofNat k]
+  | .ok .starved => .list [.sym "starved"]
+  | .error e => .list [.sym "raised", encErr e]
+
+/-- `(run nodes results prio nw cs fails choices)` ↦ `(outcome log final result)` -/
+def hRun : Handler := handler fun args =>
+  match args with
+  | [nodes, results, prio, nw, cs, fails, choices] => do
+    let gi ← decNodes nodes
+    let results ← results.toNats?
+    let prio ← decPrio prio
+    let nw ← nw.toInt?
+    let cs ← cs.toInt?
+    let fails ← fails.toNats?
+    let choices ← choices.toNats?
+    let cfg : Cfg := { g := gi.g, results := results, prio := prio, nw := nw, cs := cs }
+    let P := mkParams gi fails
+    let r := getAsync cfg P choices
+    let res : SExp := match r.outcome with
+      | .ok .done => .list (results.map (fun k => match r.final.cache.get? k with
+          | some v => .int v
+          | none => .sym "KeyError"))
+      | _ => .list []
+    pure (.list [encOutcome r.outcome,
+                 .list (r.log.map (fun p => .list [encEv p.1, encState p.2])),
+                 encState r.final, res])
+  | _ => none
+
+/-- `(start_state nodes results prio)` ↦ `(ok state)` | `(raised err)` -/
+def hStart : Handler := handler fun args =>
+  match args with
+  | [nodes, results, prio] => do
+    let gi ← decNodes nodes
+    let results ← results.toNats?
+    let prio ← decPrio prio
+    let cfg : Cfg := { g := gi.g, results := results, prio := prio, nw := 1, cs := 1 }
+    match startState cfg (mkParams gi []) with
+    | .ok s => pure (.list [.sym "ok", encState s])
+    | .error e => pure (.list [.sym "raised", encErr e])
+  | _ => none
+
+/-- `(finish_task state key results prio)` ↦ `(ok state)` | `(raised err)` -/
+def hFinish : Handler := handler fun args =>
+  match args with
+  | [st, key, results, prio] => do
+    let s ← decState st
+    let key ← key.toNat?
+    let results ← results.toNats?
+    let prio ← decPrio prio
+    let cfg : Cfg := { g := [], results := results, prio := prio, nw := 1, cs := 1 }
+    match finishTask cfg key s with
+    | .ok s => pure (.list [.sym "ok", encState s])
+    | .error e => pure (.list [.sym "raised", encErr e])
+  | _ => none
+
+/-- `(release_data state key)` -/
+def hRelease : Handler := handler fun args =>
+  match args with
+  | [st, key] => do
+    let s ← decState st
+    let key ← key.toNat?
+    match releaseData key s with
+    | .ok s => pure (.list [.sym "ok", encState s])
+    | .error e => pure (.list [.sym "raised", encErr e])
+  | _ => none
+
+/-- `(denote nodes keys)` ↦ values of the recursive evaluation (`none` for keys not in the graph) -/
+def hDenote : Handler := handler fun args =>
+  match args with
+  | [nodes, keys] => do
+    let gi ← decNodes nodes
+    let keys ← keys.toNats?
+    let P := mkParams gi []
+    pure (.list (keys.map (fun k => match gi.g.get? k with
+      | some _ => .int (denote gi.g P (gi.g.length + 1) k)
+      | none => .sym "none")))
+  | _ => none
+
+end SchedDrv
+
+def table : List (String × Handler) :=
+  [("run", SchedDrv.hRun), ("start_state", SchedDrv.hStart), ("finish_task", SchedDrv.hFinish),
+   ("release_data", SchedDrv.hRelease), ("denote", SchedDrv.hDenote)]
 
 def main : IO Unit := runDriver table
